@@ -7,6 +7,9 @@ C11 - socket reads are independent of how the network segments the data.
      error) between any two receives, peer close: PrefixOK (delivered ++
      buffer = received: nothing lost, duplicated, reordered), SizeOK,
      TimeoutKeepsData.
+ (B') replay of TLC's complete plain-mode state graph (sock_replay.py): every
+     edge at least once on the real SocketWrapper over a path-scripted socket,
+     return values, buffer and in_waiting compared after every client call.
  (B) SockTrace.tla validation of the real SocketWrapper over a scripted
      socket.socket subclass: long mixed streams x random partitions x bufsize
      {1, 7, 512, 4096} x failures; every recv, every return value and the
@@ -35,6 +38,13 @@ def run(tier, rep):
     rep.assumptions += ["TLC 1.8", "recv() returns at most bufsize bytes (socket contract)"]
     for bs in ([1, 3] if quick else [1, 2, 3, 8]):
         sock_engine.mc(rep, False, bs, maxlen=4 if quick else 6, maxn=3, maxfail=1, calls=True)
+    # (B') every edge of the plain-mode state graph through the real SocketWrapper
+    from .. import sock_replay
+
+    sock_replay.replay_graph(rep, bufsize=2, maxlen=3 if quick else 4)
+    if not quick:
+        sock_replay.replay_graph(rep, bufsize=1, maxlen=3)
+        sock_replay.replay_graph(rep, bufsize=3, maxlen=4)
     rnd = rng("c11")
     bundle = de.real_bundle()
     pool = stream_corpus.payload_pool(bundle, "c11", 60)
